@@ -86,6 +86,8 @@ C08T = [("Mc.Props.C07", "Mc.C07." + t) for t in ["C07_gate", "C07_child_happy",
 
 C01T = [("Mc.Props.C01", "Mc.C01." + t) for t in ["silent_ret", "C01_updateGroup_quiet", "C01_deleteGroup_quiet", "C01_manage_quiet", "C01_equal_is_fix", "C01_ssa_quiet"]] + \
        [("Mc.Props.C01Closed", "Mc.C01." + t) for t in ["delete_live", "create_free", "deleteGroup_run", "createGroup_run"]] + \
+       [("Mc.Props.C01Converge", "Mc.C01." + t) for t in ["C01_create_converges", "C01_created_child_is_settled", "created_stamped", "Ext_refl"]] + \
+       [("Mc.Props.C01Converge", "Mc.applyUpdate_stamped"), ("Mc.Props.C01Converge", "Mc.merge_ext_fix")] + \
        [("Mc.Props.C06", "Mc.C06.C06_equal_no_write"), ("Mc.Props.C05", "Mc.C05.C05_idempotent"), ("Mc.Props.C05", "Mc.C05.C05_self_merge"), ("Mc.Props.C05", "Mc.C05.C05_contains")]
 
 # closed-world theorems: the Lean API-server model (Mc/Api.lean, cross-checked against the simulator on every recorded request) with arbitrary other clients
